@@ -31,6 +31,7 @@ class Policy:
     get_split = None             # None or int: max body piece for basic.get / deliveries (<= frame_max-8)
     get_truncate = None          # None or int: send only that many body frames of a basic.get reply (rest withheld forever)
     get_then_close = False       # after the (possibly truncated) get reply, close the channel (404)
+    crossing_close = False       # answer the client's Channel.Close with an own Channel.Close (sent 'before') and then CloseOk
 
 
 class Msg:
@@ -230,11 +231,18 @@ class RefBroker:
 
     # channel-level handlers -----------------------------------------------------------------------
     def h_Channel_Close(self, ch, c, fr):
+        if getattr(self.policy, 'crossing_close', False) and c['state'] == 'open':
+            # the two close handshakes cross on the wire: the broker's own Channel.Close was sent before it saw the client's
+            c['crossed'] = True
+            self.send(ch, spec.Channel.Close(reply_code=404, reply_text='NOT_FOUND - crossing', class_id=0, method_id=0), reply=False)
         c['state'] = 'closed'
         c['consumers'].clear()
         self.send(ch, spec.Channel.CloseOk())
 
     def h_Channel_CloseOk(self, ch, c, fr):
+        if c.get('crossed'):
+            c['crossed_closeoks'] = c.get('crossed_closeoks', 0) + 1
+            return
         self.violations.append('Channel.CloseOk on open channel %d' % ch)
 
     def h_Channel_FlowOk(self, ch, c, fr):
